@@ -52,6 +52,10 @@ Judge(e) ==
         IF Proj(got) = Proj(want) THEN <<>> ELSE << "C18:disagree:" \o name >>
   IN
   (IF ~e.json_ok THEN << "C18:json:invalid-or-wrong-shape" >> ELSE agree("json-vs-library", e.json, lib))
+  \* the JSON channel also carries raw offsets: they are the offsets in the file as it is on disk
+  \o (IF e.json_ok /\ Proj(e.json) = Proj(lib)
+         /\ [i \in 1..Len(lib) |-> <<e.json[i].r0, e.json[i].r1>>] # [i \in 1..Len(lib) |-> <<lib[i].r0, lib[i].r1>>]
+        THEN << "C18:json:raw-offsets-differ-from-library" >> ELSE <<>>)
   \o agree("compact-all-files-vs-library", e.compact_all, lib)
   \o agree("compact-vs-library-base-file", e.compact, OnlyBase(lib, base))
   \o agree("pretty-all-files-vs-library", e.pretty_all, lib)
